@@ -3,7 +3,7 @@ FRAGMENT = {
  'C19': {'bin': 'w_proxy',
  'world': 'c19',
  'level': 'exploration',
- 'quick': {'runs': 30000, 'budget_s': 32, 'workers': 16},
+ 'quick': {'runs': 60000, 'budget_s': 32, 'workers': 16},
  'thorough': {'runs': 600000, 'budget_s': 900, 'workers': 16, 'det_sample': 100},
  'level_text': 'the C18 universe (real daemon, proxy-msg.c, proxy-client.c over the simulated kernel and capture device) plus 0-4 byte-level '
                'adversary tasks and token clients; adversaries send valid protocol messages (connect, service, token, notify, reclaim confirm, '
